@@ -484,14 +484,15 @@ B("c20-benign-classic-loop", "C20", "histogram.go",
 	}""", """	for i := 0; i < n; i++ {
 		buckets[i] = width*time.Duration(i) + start
 	}""")
-B("c20-benign-exp-pow", "C20", "histogram.go",
+# (was listed as benign until round 7: start*Pow(factor,i) differs from the recurrence by ulps)
+M("c20-exp-pow-closed-form", "C20", "histogram.go",
   """	curr := start
 	for i := range buckets {
 		buckets[i] = curr
 		curr *= factor
 	}""", """	for i := 0; i < len(buckets); i++ {
 		buckets[i] = start * math.Pow(factor, float64(i))
-	}""")
+	}""", expect="O5 recurrence")
 B("c20-benign-guard-lt-1", "C20", "histogram.go",
   """func LinearValueBuckets(start, width float64, n int) (ValueBuckets, error) {
 	if n <= 0 {""", """func LinearValueBuckets(start, width float64, n int) (ValueBuckets, error) {
